@@ -83,6 +83,8 @@ func (e *vExpr) String() string {
 		return "(?! " + e.a.String() + ")"
 	case "cap":
 		return "@" + e.a.String()
+	case "paren":
+		return "(" + e.a.String() + ")"
 	}
 	return "?"
 }
@@ -90,7 +92,7 @@ func (e *vExpr) String() string {
 // vWithEscapedLiteral adds a second literal, a"\b, whose text needs escaping (used by the C14 stand-in).
 var vWithEscapedLiteral = false
 
-var vUnary = []string{"opt", "star", "plus", "nonempty", "neg", "lookpos", "lookneg", "cap"}
+var vUnary = []string{"opt", "star", "plus", "nonempty", "neg", "lookpos", "lookneg", "cap", "paren"}
 
 // vEnum enumerates all expressions with exactly `size` operator/leaf nodes over nprod productions.
 func vEnum(size, nprod int, memo map[int][]*vExpr) []*vExpr {
@@ -138,7 +140,7 @@ func specNullable(e *vExpr, bodies []*vExpr, nul []bool) bool {
 		return specNullable(e.a, bodies, nul) || specNullable(e.b, bodies, nul)
 	case "opt", "star", "lookpos", "lookneg":
 		return true
-	case "plus", "cap":
+	case "plus", "cap", "paren":
 		return specNullable(e.a, bodies, nul)
 	}
 	return false
@@ -156,7 +158,7 @@ func specFirst(e *vExpr, bodies []*vExpr, nul []bool, out map[int]bool) {
 	case "alt":
 		specFirst(e.a, bodies, nul, out)
 		specFirst(e.b, bodies, nul, out)
-	case "opt", "star", "plus", "nonempty", "neg", "lookpos", "lookneg", "cap":
+	case "opt", "star", "plus", "nonempty", "neg", "lookpos", "lookneg", "cap", "paren":
 		specFirst(e.a, bodies, nul, out)
 	}
 }
@@ -285,6 +287,8 @@ func vBuild(e *vExpr, prods []*strct) node {
 		return &lookaheadGroup{expr: vBuild(e.a, prods), negative: true}
 	case "cap":
 		return &capture{node: vBuild(e.a, prods)}
+	case "paren":
+		return &group{expr: vBuild(e.a, prods), mode: groupMatchOnce}
 	}
 	panic("bad op")
 }
@@ -318,7 +322,7 @@ func validateNoPanic(n node) (err error, panicked interface{}) {
 // re-enter itself before consuming a token.
 func TestVerif_C08_LeftRecursion(t *testing.T) {
 	res := &verifResult{Check: "validate left recursion", Property: "C08", Exhaustive: true,
-		Bound: "all grammars with one production whose body has <= 4 (thorough: 5) operator/leaf nodes, and all grammars with two productions with bodies of <= 3 (thorough: P0 <= 3, P1 <= 4) nodes, over {literal, production reference, sequence, choice, ? * + !, ~, (?= ), (?! ), capture}; node graphs built directly in-package",
+		Bound: "all grammars with one production whose body has <= 4 (thorough: 5) operator/leaf nodes, and all grammars with two productions with bodies of <= 3 (thorough: P0 <= 3, P1 <= 4) nodes, over {literal, production reference, sequence, choice, ? * + !, ~, (?= ), (?! ), capture, redundant parentheses}; node graphs built directly in-package",
 		Rule: "distinct grammars; non-trivial = the specification says left-recursive, or the grammar has a nullable prefix / second alternative before a production reference"}
 	one, twoA, twoB := 4, 3, 3
 	if verifThorough() {
